@@ -48,7 +48,7 @@ theorem upper_not_special (ch : Nat) (h : isSpecial ch = false) : isSpecial (upp
   unfold upperC
   split
   · rename_i hr
-    have hsc : Gen.Tokens.specialChars = [46, 44, 40, 41, 58, 32] := by decide
+    have hsc : Gen.Tokens.specialChars = [46, 44, 40, 41, 58, 59, 32] := by decide
     unfold isSpecial
     rw [hsc]
     simp only [List.contains_eq_mem, List.mem_cons, List.mem_nil_iff, or_false, decide_eq_false_iff_not]
@@ -184,7 +184,7 @@ theorem simpleB_spec (W : Str) (h : simpleB W = true) (n : Nat) (h0 : 0 < n) (hn
 
 /-- the keywords that begin with a shorter keyword: prefix keyword, rest -/
 def compounds : List (Str × Str) :=
-  [([68, 69, 70], [83, 84, 82]), ([68, 69, 70], [73, 78, 84]), ([68, 69, 70], [83, 78, 71]), ([69, 82, 82], [79, 82]), ([76, 79, 67], [65, 84, 69])]
+  [([68, 69, 70], [83, 84, 82]), ([68, 69, 70], [73, 78, 84]), ([68, 69, 70], [83, 78, 71]), ([68, 69, 70], [68, 66, 76]), ([69, 82, 82], [79, 82]), ([76, 79, 67], [65, 84, 69])]
 
 theorem all_simple_or_compound : ∀ e ∈ Gen.Tokens.tokens, simpleB e.1 = true ∨ ∃ pq ∈ compounds, e.1 = pq.1 ++ pq.2 := by decide +kernel
 
